@@ -322,6 +322,15 @@ Init ==
     /\ st \in States
     /\ ev \in Events
     /\ s \in [inf: BOOLEAN, n: Int]
+    /\ st2 = st
+    /\ ev2 = ev
+
+\* two independent scenarios (for OrderOnly)
+InitPair ==
+    /\ v \in [notifChecked: BOOLEAN, privCreators: BOOLEAN, intOnly: BOOLEAN]
+    /\ st \in States
+    /\ ev \in Events
+    /\ s = InfLevel
     /\ st2 \in States
     /\ ev2 \in Events
 
@@ -389,58 +398,90 @@ NotAcceptingInf ==
 NotRejecting == R10_PowerLevels(v, st, ev)
 
 (***************************************************************************)
+(* All of the above in ONE Apalache run (the preprocessing passes dominate *)
+(* the run time): --cinit=CInitAll lets the solver choose Fault, every     *)
+(* obligation is guarded by the Fault it is about, --max-error keeps the   *)
+(* checker going after an (expected) violation.  H_ must hold, X_ must be  *)
+(* violated.  checks/c08_lemma.py reads the verdict of each by position.   *)
+(***************************************************************************)
+\* Fault values that leave the rule as it is: "none" and one name per non-vacuity witness
+Benign == {"none", "w_accepting", "w_first", "w_inf", "w_rejecting"}
+CInitAll == Fault \in (Faults \cup Benign) /\ NoPLCreatorLevel \in Int
+\* --max-error needs a view that tells counterexamples apart; with Fault as the view every obligation (each is
+\* about its own Fault value) yields at most one counterexample
+\* @type: Str;
+View == Fault
+
+H_Lemma               == Fault \in Benign => Lemma
+X_NotAccepting        == Fault = "w_accepting" => NotAccepting
+X_NotAcceptingFirst   == Fault = "w_first"     => NotAcceptingFirst
+X_NotAcceptingInf     == Fault = "w_inf"       => NotAcceptingInf
+X_NotRejecting        == Fault = "w_rejecting" => NotRejecting
+X_no_users_default    == Fault = "no_users_default"    => Lemma_Scalars
+X_new_side_only       == Fault = "new_side_only"       => Lemma_Scalars
+X_no_effective_events == Fault = "no_effective_events" => Lemma_Events
+X_notif_unchecked     == Fault = "notif_unchecked"     => Lemma_Notif
+X_other_user_le       == Fault = "other_user_le"       => Lemma_Users
+X_no_user_removal     == Fault = "no_user_removal"     => Lemma_Users
+X_creators_named      == Fault = "creators_named"      => Lemma_Creators
+X_parse_any           == Fault = "parse_any"           => Lemma_IntOnly
+
+(***************************************************************************)
 (* Only order and equality matter (why ranks are an exact abstraction):    *)
 (* two scenarios that agree on everything but the integers, and whose      *)
 (* integers - together with the constants 0, 50 and NoPLCreatorLevel the   *)
 (* rules compare them with - are ordered the same way, get the same        *)
 (* verdicts from the rule and from the invariant.                          *)
 (***************************************************************************)
-\* the integers a scenario's verdicts can read: tag -> value (absent entries: not read, left unconstrained)
-\* @type: Set(<<Str, Str>>);
-SlotTags == {<<"c", "0">>, <<"c", "50">>, <<"c", "top">>}
-            \cup {<<g, k>> : g \in {"os", "ns"}, k \in ScalarKeys}
-            \cup {<<g, k>> : g \in {"oe", "ne"}, k \in EvKeys}
-            \cup {<<g, k>> : g \in {"on", "nn"}, k \in NKeys}
-            \cup {<<g, k>> : g \in {"ou", "nu"}, k \in Users}
-
-\* @type: ($st, $ev, <<Str, Str>>) => Bool;
-SlotLive(st_, ev_, t) ==
-    LET g == t[1]  k == t[2] IN
-    CASE g = "c"  -> TRUE
-      [] g = "os" -> st_.plPresent /\ st_.c.scalarHas[k]
-      [] g = "oe" -> st_.plPresent /\ st_.c.eventsHas[k]
-      [] g = "on" -> st_.plPresent /\ st_.c.notifHas[k]
-      [] g = "ou" -> st_.plPresent /\ st_.c.usersHas[k]
-      [] g = "ns" -> ev_.newpl.scalarHas[k]
-      [] g = "ne" -> ev_.newpl.eventsHas[k]
-      [] g = "nn" -> ev_.newpl.notifHas[k]
-      [] OTHER    -> ev_.newpl.usersHas[k]
-
-\* @type: ($st, $ev, <<Str, Str>>) => Int;
-SlotVal(st_, ev_, t) ==
-    LET g == t[1]  k == t[2] IN
-    CASE g = "c"  -> (IF k = "0" THEN 0 ELSE IF k = "50" THEN 50 ELSE NoPLCreatorLevel)
-      [] g = "os" -> st_.c.scalar[k]
-      [] g = "oe" -> st_.c.events[k]
-      [] g = "on" -> st_.c.notif[k]
-      [] g = "ou" -> st_.c.users[k]
-      [] g = "ns" -> ev_.newpl.scalar[k]
-      [] g = "ne" -> ev_.newpl.events[k]
-      [] g = "nn" -> ev_.newpl.notif[k]
-      [] OTHER    -> ev_.newpl.users[k]
+\* every integer a scenario's verdicts can read, as one sequence: the constants the rules compare levels with,
+\* then every entry of the old and of the new content (NSlots of them) ...
+NSlots == 43
+\* @type: ($st, $ev) => Seq(Int);
+SlotVals(st_, ev_) ==
+    <<0, 50, NoPLCreatorLevel, st_.c.scalar["ban"], st_.c.scalar["kick"], st_.c.scalar["invite"],
+       st_.c.scalar["redact"], st_.c.scalar["events_default"], st_.c.scalar["state_default"],
+       st_.c.scalar["users_default"], st_.c.events["pl"], st_.c.events["jr"], st_.c.events["topic"],
+       st_.c.events["msg"], st_.c.events["redaction"], st_.c.events["tpi"], st_.c.events["custom"],
+       st_.c.notif["room"], st_.c.notif["here"], st_.c.users["creator"], st_.c.users["alice"], st_.c.users["bob"],
+       st_.c.users["carol"], ev_.newpl.scalar["ban"], ev_.newpl.scalar["kick"], ev_.newpl.scalar["invite"],
+       ev_.newpl.scalar["redact"], ev_.newpl.scalar["events_default"], ev_.newpl.scalar["state_default"],
+       ev_.newpl.scalar["users_default"], ev_.newpl.events["pl"], ev_.newpl.events["jr"], ev_.newpl.events["topic"],
+       ev_.newpl.events["msg"], ev_.newpl.events["redaction"], ev_.newpl.events["tpi"], ev_.newpl.events["custom"],
+       ev_.newpl.notif["room"], ev_.newpl.notif["here"], ev_.newpl.users["creator"], ev_.newpl.users["alice"],
+       ev_.newpl.users["bob"], ev_.newpl.users["carol"] >>
+\* ... and whether the entry is there at all (the value of an absent entry is never read: left unconstrained)
+\* @type: ($st, $ev) => Seq(Bool);
+SlotLives(st_, ev_) ==
+    <<TRUE, TRUE, TRUE, st_.plPresent /\ st_.c.scalarHas["ban"], st_.plPresent /\ st_.c.scalarHas["kick"],
+       st_.plPresent /\ st_.c.scalarHas["invite"], st_.plPresent /\ st_.c.scalarHas["redact"],
+       st_.plPresent /\ st_.c.scalarHas["events_default"], st_.plPresent /\ st_.c.scalarHas["state_default"],
+       st_.plPresent /\ st_.c.scalarHas["users_default"], st_.plPresent /\ st_.c.eventsHas["pl"],
+       st_.plPresent /\ st_.c.eventsHas["jr"], st_.plPresent /\ st_.c.eventsHas["topic"],
+       st_.plPresent /\ st_.c.eventsHas["msg"], st_.plPresent /\ st_.c.eventsHas["redaction"],
+       st_.plPresent /\ st_.c.eventsHas["tpi"], st_.plPresent /\ st_.c.eventsHas["custom"],
+       st_.plPresent /\ st_.c.notifHas["room"], st_.plPresent /\ st_.c.notifHas["here"],
+       st_.plPresent /\ st_.c.usersHas["creator"], st_.plPresent /\ st_.c.usersHas["alice"],
+       st_.plPresent /\ st_.c.usersHas["bob"], st_.plPresent /\ st_.c.usersHas["carol"], ev_.newpl.scalarHas["ban"],
+       ev_.newpl.scalarHas["kick"], ev_.newpl.scalarHas["invite"], ev_.newpl.scalarHas["redact"],
+       ev_.newpl.scalarHas["events_default"], ev_.newpl.scalarHas["state_default"],
+       ev_.newpl.scalarHas["users_default"], ev_.newpl.eventsHas["pl"], ev_.newpl.eventsHas["jr"],
+       ev_.newpl.eventsHas["topic"], ev_.newpl.eventsHas["msg"], ev_.newpl.eventsHas["redaction"],
+       ev_.newpl.eventsHas["tpi"], ev_.newpl.eventsHas["custom"], ev_.newpl.notifHas["room"],
+       ev_.newpl.notifHas["here"], ev_.newpl.usersHas["creator"], ev_.newpl.usersHas["alice"],
+       ev_.newpl.usersHas["bob"], ev_.newpl.usersHas["carol"] >>
 
 \* same shape: everything that is not an integer coincides
 SameShape ==
     /\ st.plPresent = st2.plPresent /\ st.addl = st2.addl
     /\ ev.sender = ev2.sender /\ ev.isState = ev2.isState
     /\ ev.newpl.spkind = ev2.newpl.spkind /\ ev.newpl.baduser = ev2.newpl.baduser
-    /\ \A t \in SlotTags : SlotLive(st, ev, t) = SlotLive(st2, ev2, t)
+    /\ \A i \in 1..NSlots : SlotLives(st, ev)[i] = SlotLives(st2, ev2)[i]
 
 \* same order: the live integers of the two scenarios are ordered the same way
 SameOrder ==
-    \A t1 \in SlotTags, t2 \in SlotTags :
-       (SlotLive(st, ev, t1) /\ SlotLive(st, ev, t2)) =>
-          ((SlotVal(st, ev, t1) < SlotVal(st, ev, t2)) = (SlotVal(st2, ev2, t1) < SlotVal(st2, ev2, t2)))
+    LET L == SlotLives(st, ev)  X == SlotVals(st, ev)  Y == SlotVals(st2, ev2) IN
+    \A i \in 1..NSlots, j \in 1..NSlots :
+       (L[i] /\ L[j]) => ((X[i] < X[j]) = (Y[i] < Y[j]))
 
 OrderOnly ==
     (SameShape /\ SameOrder) =>
